@@ -286,10 +286,83 @@ def r6(ctx):
            '; '.join(why) or 'loop is while(true) with %d exits: found / not waiting / condvar error' % len(breaks))
 
 
+def r7(ctx):
+    ctx.rule('C04.R7', 'a request that is told the final result is finished: where the protocol handler calls notify() and '
+             'discards the answer (the drain of the queue on signal loss passes a constant result), every notify() '
+             'implementation returns false on every path that is feasible for that result - a "restart me" that nobody '
+             'looks at leaves the request (and the scan counter behind it) unfinished for ever', minimum=3)
+    import re
+    fb = ctx.fb
+    consts = set()
+    for fn in fb.functions:
+        if not fn.relfile.startswith('src/lib/ebus/protocol') or not fn.blocks:
+            continue
+        for c in fn.all('CXXMemberCallExpr'):
+            v = fn.nodes[c]
+            if not (v.get('callee') or '').endswith('BusRequest::notify') or not v.get('args'):
+                continue
+            par = fn.nodes.get(fn.parent(c), {})
+            if par.get('k') in ('CompoundStmt', 'WhileStmt', 'IfStmt', 'ForStmt') and fn.val(v['args'][0]) is not None:
+                consts.add(fn.val(v['args'][0]))
+    if not consts:
+        raise AnalysisBroken('C04.R7: no notify() call with discarded answer found in the protocol handler')
+    impls = [f for f in fb.functions if f.name.endswith('Request::notify') and f.blocks and len(f.params) == 2]
+    seen = set()
+    n = 0
+    for fn in impls:
+        if fn.name in seen:
+            continue
+        seen.add(fn.name)
+        ctx.touch(fn)
+        rd = fn.params[0]['decl']
+        rn = fn.params[0]['name']
+        writes = set(nid for nid, d, rhs, op, lhs in fn.assignments() if d == rd)
+        for R in sorted(consts):
+            bad = []
+
+            def on_elem(user, e, path):
+                if e in writes:
+                    return 'unknown'
+                v = fn.nodes[e]
+                if v['k'] == 'ReturnStmt':
+                    if v.get('val') is None or fn.val(v['val']) != 0:
+                        bad.append(e)
+                    return None
+                return user
+
+            def on_edge(user, b, j, dnf):
+                if user != 'R':
+                    return user
+                # the edge is infeasible for result == R if every alternative contains an atom on the parameter that R falsifies
+                feasible = False
+                for conj in dnf:
+                    ok = True
+                    for a in conj:
+                        k, pol = facts.atom_key(fn, a)
+                        m = re.match(r'^\(%s (<|<=|==|!=|>|>=) #(-?\d+)\)$' % re.escape(rn), k)
+                        if m:
+                            c = int(m.group(2))
+                            holds = {'<': R < c, '<=': R <= c, '==': R == c, '!=': R != c, '>': R > c, '>=': R >= c}[m.group(1)]
+                            if holds != bool(pol):
+                                ok = False
+                    feasible = feasible or ok
+                return user if feasible else None
+            facts.Explorer(fn, on_elem=on_elem, on_edge=on_edge).run(fn.entry, 0, 'R')
+            n += 1
+            ctx.ob('C04.R7', fn, fn.body, not bad, '%s for result %d' % (fn.name.split('::', 1)[1], R),
+                   'asks for a restart at line(s) %s' % sorted(set(fn.line_of(x) for x in bad)) if bad else 'finishes on every feasible path')
+    if n < 3:
+        raise AnalysisBroken('C04.R7: only %d notify implementations found' % n)
+
+
 def run(ctx):
+    r7(ctx)
     r1(ctx)
     r2(ctx)
     r3(ctx)
     r4(ctx)
     r5(ctx)
     r6(ctx)
+    import rules.common as _common
+    ctx.rule('C04.R8', 'arguments keep their roles across calls: at every call of a repository function in the request handling sources (master, slave and result of a request are not exchanged) whose arguments are named like parameters of the callee, no two of them are passed crosswise (argument i named like parameter j and argument j like parameter i)', minimum=15)
+    _common.swapped_args_rule(ctx, 'C04.R8', ('src/ebusd/bushandler', 'src/ebusd/scan', 'src/lib/ebus/protocol'), 15)
